@@ -457,9 +457,30 @@ func random(w *sw, r *rng.R, cases, maxSteps int) {
 				if nlive >= 2 {
 					j := pick()
 					if j != i {
+						// give the ARGUMENT of Merge a history right before the merge: cleared by
+						// DeleteAll, drained by Deletes, or just queried
+						switch r.Intn(6) {
+						case 0:
+							ops = append(ops, fmt.Sprintf("%d X", j))
+						case 1:
+							ops = append(ops, fmt.Sprintf("%d I %d %d", j, key(s), 999), fmt.Sprintf("%d X", j))
+						case 2:
+							for d := 0; d < 12; d++ {
+								ops = append(ops, fmt.Sprintf("%d D", j))
+							}
+						case 3:
+							ops = append(ops, fmt.Sprintf("%d P", j), fmt.Sprintf("%d CK %d", j, key(s)), fmt.Sprintf("%d CV %d", j, 999), fmt.Sprintf("%d S", j))
+						}
 						ops = append(ops, fmt.Sprintf("%d M %d", i, j))
 						live[j] = false
 						nlive--
+						// ... and look at the receiver BEFORE any Delete repairs anything
+						hv := 999
+						if len(held) > 0 {
+							hv = held[r.Intn(len(held))]
+						}
+						ops = append(ops, fmt.Sprintf("%d P", i), fmt.Sprintf("%d S", i), fmt.Sprintf("%d E", i),
+							fmt.Sprintf("%d CK %d", i, key(s)), fmt.Sprintf("%d CV %d", i, hv), fmt.Sprintf("%d CV 999", i))
 					}
 				}
 			default:
@@ -493,6 +514,109 @@ func random(w *sw, r *rng.R, cases, maxSteps int) {
 			runCase(w, header(impl, orients[c%len(orients)], sizes), o)
 		}
 	}
+}
+
+// mergeHistories: Merge whose ARGUMENT (and receiver) has a history: never used, cleared by
+// DeleteAll after inserts, refilled after a DeleteAll, drained to empty by Deletes, queried, itself
+// the result of an earlier Merge (then possibly cleared or drained) - with keys better than, worse
+// than or tying with the receiver's, followed by the full query battery on the receiver BEFORE any
+// Delete, then one Delete, the battery again, and a drain.
+func mergeHistories(w *sw, r *rng.R) {
+	type hist func(h int, keys []int, v *int) []string
+	ins := func(h int, keys []int, v *int) []string {
+		var ops []string
+		for _, k := range keys {
+			ops = append(ops, fmt.Sprintf("%d I %d %d", h, k, *v))
+			*v++
+		}
+		return ops
+	}
+	drain := func(h, n int) []string {
+		var ops []string
+		for i := 0; i < n; i++ {
+			ops = append(ops, fmt.Sprintf("%d D", h))
+		}
+		return ops
+	}
+	query := func(h int, keys []int) []string {
+		ops := []string{fmt.Sprintf("%d P", h), fmt.Sprintf("%d S", h), fmt.Sprintf("%d E", h)}
+		for _, k := range keys {
+			ops = append(ops, fmt.Sprintf("%d CK %d", h, k))
+		}
+		return append(ops, fmt.Sprintf("%d CV 500", h), fmt.Sprintf("%d CV 501", h))
+	}
+	// histories of a heap h; heap 2 is a helper for "result of an earlier Merge"
+	hists := []hist{
+		func(h int, keys []int, v *int) []string { return nil },
+		func(h int, keys []int, v *int) []string { return ins(h, keys, v) },
+		func(h int, keys []int, v *int) []string { return append(ins(h, keys, v), fmt.Sprintf("%d X", h)) },
+		func(h int, keys []int, v *int) []string {
+			return append(append(ins(h, keys, v), fmt.Sprintf("%d X", h)), ins(h, keys[:1], v)...)
+		},
+		func(h int, keys []int, v *int) []string { return append(ins(h, keys, v), drain(h, len(keys))...) },
+		func(h int, keys []int, v *int) []string {
+			return append(append(ins(h, keys, v), drain(h, len(keys)+1)...), fmt.Sprintf("%d X", h))
+		},
+		func(h int, keys []int, v *int) []string { return append(ins(h, keys, v), query(h, keys)...) },
+		func(h int, keys []int, v *int) []string { return append(ins(h, keys, v), drain(h, 1)...) },
+		func(h int, keys []int, v *int) []string {
+			return append(append(ins(h, keys, v), ins(2, keys, v)...), fmt.Sprintf("%d M 2", h))
+		},
+		func(h int, keys []int, v *int) []string {
+			return append(append(ins(h, keys, v), ins(2, keys, v)...), fmt.Sprintf("%d M 2", h), fmt.Sprintf("%d X", h))
+		},
+		func(h int, keys []int, v *int) []string {
+			o := append(append(ins(h, keys, v), ins(2, keys, v)...), fmt.Sprintf("%d M 2", h))
+			return append(o, drain(h, 2*len(keys))...)
+		},
+		func(h int, keys []int, v *int) []string {
+			return append(append(ins(2, keys, v), fmt.Sprintf("%d M 2", h)), fmt.Sprintf("%d X", h))
+		},
+	}
+	argKeys := [][]int{{1}, {1, 2, 1}, {30, 40}, {10}, {10, 20, 5, 10}, {3, 1, 4, 1, 5, 9, 2}}
+	recvKeys := [][]int{{}, {10}, {10, 20, 5}, {10, 10, 10}, {7, 3, 9, 3, 8, 12, 3}}
+	n := 0
+	for _, impl := range []string{"BNM", "FIB"} {
+		for ri, rk := range recvKeys {
+			for rh := 0; rh < 4; rh++ { // receiver: plain, cleared-and-refilled, after one Delete, queried
+				for ai, ak := range argKeys {
+					for hi, ah := range hists {
+						orient := orients[n%len(orients)]
+						n++
+						v := 500
+						var ops []string
+						switch rh {
+						case 0:
+							ops = ins(0, rk, &v)
+						case 1:
+							ops = append(append(ins(0, []int{1, 2}, &v), "0 X"), ins(0, rk, &v)...)
+						case 2:
+							ops = append(ins(0, append([]int{1}, rk...), &v), "0 D")
+						case 3:
+							ops = append(ins(0, rk, &v), query(0, rk)...)
+						}
+						ops = append(ops, ah(1, ak, &v)...)
+						ops = append(ops, "0 M 1")
+						all := append(append([]int{}, rk...), ak...)
+						ops = append(ops, query(0, all)...)
+						for val := 500; val < v; val++ { // every value ever inserted, discarded ones included
+							ops = append(ops, fmt.Sprintf("0 CV %d", val))
+						}
+						ops = append(ops, "0 V", "0 DUMP", "0 D")
+						ops = append(ops, query(0, all)...)
+						ops = append(ops, "0 V", "0 DUMP")
+						ops = append(ops, drain(0, len(rk)+3*len(ak)+2)...)
+						ops = append(ops, "0 E", "0 S", "0 P")
+						_ = ri
+						_ = ai
+						_ = hi
+						runCase(w, header(impl, orient, []int{0, 0, 0}), ops)
+					}
+				}
+			}
+		}
+	}
+	_ = r
 }
 
 // shapes: adversarial structures: merges of heaps of chosen sizes (carry chains, three trees of one
@@ -654,7 +778,7 @@ func main() {
 				exhaustive(w, impl, orient, []int{0}, l1-d, true, 2)
 				exhaustive(w, impl, orient, []int{0}, l1-1-d, false, 3)
 				if impl != "BIN" {
-					exhaustive(w, impl, orient, []int{0, 0}, l2-d, false, 2)
+					exhaustive(w, impl, orient, []int{0, 0}, l2-d, true, 2) // DeleteAll too: a cleared heap as Merge argument
 					// deeper, without DeleteAll: consolidation of forests with mixed degrees needs
 					// Deletes between the Inserts
 					exhaustive(w, impl, orient, []int{0}, l1+2-d, false, 2)
@@ -673,5 +797,6 @@ func main() {
 		}
 	case "shapes":
 		shapes(w, rng.FromEnv(404), thorough)
+		mergeHistories(w, rng.FromEnv(405))
 	}
 }
